@@ -545,7 +545,8 @@ func independentAccepts(b []byte) bool {
 		last := ""
 		for _, l := range lines[1:] {
 			if (strings.HasPrefix(l, " ") || strings.HasPrefix(l, "\t")) && last != "" {
-				hdr[last] += " " + strings.TrimSpace(l)
+				// (an empty first line of a folded value contributes nothing, not a leading blank)
+				hdr[last] = strings.TrimSpace(hdr[last] + " " + strings.TrimSpace(l))
 				continue
 			}
 			i := strings.Index(l, ":")
